@@ -97,48 +97,61 @@ inductive HdrOut where
   | ok (resp : Bytes)
   | fail (code : Int)
 
+/-- the metadata message of `_send_block_header` (without CLA / command): operation, 2-byte
+    big-endian merge-mining payload size and, for advance, the coinbase transaction hash.
+    `none`: `ValueError` / `OverflowError` ⇒ ERROR_COMPUTE_METADATA -/
+def headerMeta (h : Hashes) (c : BlockCfg) (isBrother : Bool) (block : Option Bytes) : Option Bytes := do
+  let opMeta := if isBrother then c.opBroMeta else c.opHeaderMeta
+  let raw ← block
+  if h.tooDeep raw then none
+  let sz ← Block.mmPayloadSize raw
+  if sz ≥ 2 ^ 16 then none
+  else
+    if c.advance then
+      let cb ← Block.coinbaseTxn raw
+      let hsh ← coinbaseHash h cb
+      pure (opMeta :: (Bytes.be 2 sz ++ hsh))
+    else pure (opMeta :: Bytes.be 2 sz)
+
+def headerOpChunk (c : BlockCfg) (isBrother : Bool) : UInt8 := if isBrother then c.opBroChunk else c.opHeaderChunk
+def headerOpMeta (c : BlockCfg) (isBrother : Bool) : UInt8 := if isBrother then c.opBroMeta else c.opHeaderMeta
+
+/-- what the device may ask for after (part of) a header -/
+def headerNexts (c : BlockCfg) (isBrother : Bool) : List UInt8 :=
+  [headerOpChunk c isBrother, headerOpMeta c isBrother, c.opSuccess] ++
+    (if c.advance then
+      [c.opPartial] ++ (if isBrother then [c.opHeaderMeta] else [c.opBroListMeta])
+     else [])
+
+/-- A. the metadata exchange: how many bytes the device wants first -/
+def headerMetaStep (c : BlockCfg) (isBrother : Bool) (data : Bytes) : M (Except Int Nat) :=
+  catchResult
+    (do let resp ← sendCommand c.cmd data
+        let rop ← idx resp 2
+        if rop != headerOpChunk c isBrother then pure (Except.error c.respUnexpected)
+        else do
+          let n ← idx resp 3
+          pure (Except.ok n.toNat))
+    (fun sw => pure (Except.error (applyRule c.metaRule sw)))
+
+/-- B. the header itself, in chunks (the device may stop asking before the end) -/
+def headerChunkStep (c : BlockCfg) (isBrother : Bool) (raw : Bytes) (req : Nat) : M HdrOut :=
+  catchResult
+    (do let (ok, resp) ← sendChunks c.cmd (headerOpChunk c isBrother) (headerNexts c isBrother) raw false req
+        if !ok then pure (.fail c.respUnexpected) else pure (.ok resp))
+    (fun sw => pure (.fail (dictGet c.chunkMap sw c.chunkDefault)))
+
 /-- `_send_block_header`.  `block` is the decoded hex, or `none` when the string is not hex
     (then `rlp_mm_payload_size` raises `ValueError`). -/
 def sendBlockHeader (h : Hashes) (c : BlockCfg) (isBrother : Bool) (block : Option Bytes) :
-    M HdrOut := do
-  let opMeta := if isBrother then c.opBroMeta else c.opHeaderMeta
-  let opChunk := if isBrother then c.opBroChunk else c.opHeaderChunk
-  -- A. metadata (ValueError / OverflowError ⇒ ERROR_COMPUTE_METADATA)
-  let metaData : Option Bytes := do
-    let raw ← block
-    if h.tooDeep raw then none
-    let sz ← Block.mmPayloadSize raw
-    if sz ≥ 2 ^ 16 then none
-    else
-      if c.advance then
-        let cb ← Block.coinbaseTxn raw
-        let hsh ← coinbaseHash h cb
-        pure (opMeta :: (Bytes.be 2 sz ++ hsh))
-      else pure (opMeta :: Bytes.be 2 sz)
-  match metaData, block with
+    M HdrOut :=
+  match headerMeta h c isBrother block, block with
   | none, _ => pure (.fail c.respComputeMeta)
   | _, none => pure (.fail c.respComputeMeta)
-  | some data, some raw =>
-    let a ← catchResult
-      (do let resp ← sendCommand c.cmd data
-          let rop ← idx resp 2
-          if rop != opChunk then pure (Except.error c.respUnexpected)
-          else do
-            let n ← idx resp 3
-            pure (Except.ok n.toNat))
-      (fun sw => pure (Except.error (applyRule c.metaRule sw)))
-    match a with
+  | some data, some raw => do
+    match ← headerMetaStep c isBrother data with
     | .error code => pure (.fail code)
-    | .ok req =>
-      -- B. chunks
-      let nexts := [opChunk, opMeta, c.opSuccess] ++
-        (if c.advance then
-          [c.opPartial] ++ (if isBrother then [c.opHeaderMeta] else [c.opBroListMeta])
-         else [])
-      catchResult
-        (do let (ok, resp) ← sendChunks c.cmd opChunk nexts raw false req
-            if !ok then pure (.fail c.respUnexpected) else pure (.ok resp))
-        (fun sw => pure (.fail (dictGet c.chunkMap sw c.chunkDefault)))
+    | .ok req => headerChunkStep c isBrother raw req
 
 /-- the brothers of one block, after the block itself was sent -/
 def sendBrothers (h : Hashes) (c : BlockCfg) : List (Option Bytes) → Bytes → M HdrOut
@@ -151,6 +164,28 @@ def sendBrothers (h : Hashes) (c : BlockCfg) : List (Option Bytes) → Bytes →
 /-- `(success, result code)` -/
 abbrev OpOut := Bool × Int
 
+/-- what happens between a block and the next one: if the device asks for the block's brothers
+    (advance only), their count and then each of them -/
+def brothersPart (h : Hashes) (c : BlockCfg) (brothers : List (List (Option Bytes))) (resp0 : Bytes) : M HdrOut := do
+  let rop0 ← idx resp0 2
+  if c.advance && rop0 == c.opBroListMeta then do
+    let broList := brothers.headD []
+    if broList.length > 255 then pure (HdrOut.fail c.respInvalidBrothers)
+    else do
+      let data := [c.opBroListMeta, UInt8.ofNat broList.length]
+      let r ← catchResult
+        (do let resp ← sendCommand c.cmd data
+            if broList.length > 0 then do
+              let rop ← idx resp 2
+              if rop != c.opBroMeta then pure (HdrOut.fail c.respUnexpected)
+              else pure (HdrOut.ok resp)
+            else pure (HdrOut.ok resp))
+        (fun sw => pure (HdrOut.fail (applyRule c.broListRule sw)))
+      match r with
+      | .fail code => pure (HdrOut.fail code)
+      | .ok resp => sendBrothers h c broList resp
+  else pure (HdrOut.ok resp0)
+
 /-- the `for block_number, block in enumerate(blocks, 1)` loop -/
 def blockLoop (h : Hashes) (c : BlockCfg) :
     List (Option Bytes) → List (List (Option Bytes)) → M OpOut
@@ -159,26 +194,7 @@ def blockLoop (h : Hashes) (c : BlockCfg) :
     match ← sendBlockHeader h c false block with
     | .fail code => pure (false, code)
     | .ok resp0 =>
-      let rop0 ← idx resp0 2
-      let afterBros ←
-        if c.advance && rop0 == c.opBroListMeta then do
-          let broList := brothers.headD []
-          if broList.length > 255 then pure (HdrOut.fail c.respInvalidBrothers)
-          else do
-            let data := [c.opBroListMeta, UInt8.ofNat broList.length]
-            let r ← catchResult
-              (do let resp ← sendCommand c.cmd data
-                  if broList.length > 0 then do
-                    let rop ← idx resp 2
-                    if rop != c.opBroMeta then pure (HdrOut.fail c.respUnexpected)
-                    else pure (HdrOut.ok resp)
-                  else pure (HdrOut.ok resp))
-              (fun sw => pure (HdrOut.fail (applyRule c.broListRule sw)))
-            match r with
-            | .fail code => pure (HdrOut.fail code)
-            | .ok resp => sendBrothers h c broList resp
-        else pure (HdrOut.ok resp0)
-      match afterBros with
+      match ← brothersPart h c brothers resp0 with
       | .fail code => pure (false, code)
       | .ok resp =>
         let rop ← idx resp 2
